@@ -106,6 +106,43 @@ def enum_grow(big):
     return ops
 
 
+LONG_LENGTHS = list(range(1000, 1026)) + list(range(2040, 2051)) + list(range(4090, 4101)) + [5000, 10000]
+
+
+def long_piece(L, digit=7):
+    """`addstrf <s> <digit>` whose formatted output "%s=%d" is exactly L bytes long (L >= 3)"""
+    body = bytes(97 + (i * 7 + L) % 26 for i in range(L - 2))
+    return "addstrf %s %d" % (hexs(body), digit)
+
+
+def vs_attempts(L):
+    """malloc calls of DYNAMIC_VSPRINTF for a formatted length L: buffers 1024, 2048, ... until L < size"""
+    n, size = 1, 1024
+    while L >= size:
+        n, size = n + 1, size * 2
+    return n
+
+
+def long_addstrf_histories(lengths):
+    """formatted pieces around the buffer sizes of DYNAMIC_VSPRINTF's retry loop"""
+    hs = []
+    for L in lengths:
+        hs.append(["new grow", long_piece(L), "datasize", "add 2b", long_piece(L, 3), "size", "tostring"])
+    return hs
+
+
+def enum_grow_long(lengths):
+    """C15: every allocation position of addstrf for long formatted pieces: the retry loop's
+    buffers (one malloc + free per round), then the two allocations of the insertion"""
+    ops = []
+    for L in lengths:
+        n = vs_attempts(L) + 2
+        arms = ["fault %d" % k for k in range(1, n + 2)] + ["faultfrom %d" % k for k in range(1, n + 1)]
+        for arm in arms:
+            ops += ["new grow %d" % (L & 1), "add 6161", arm, long_piece(L), "datasize", "end"]
+    return ops
+
+
 def velem(os_, k):
     return bytes((k * 37 + j * 11) % 256 if (k + j) % 5 else 0 for j in range(os_ - 1)) + bytes([k % 256])
 
@@ -303,6 +340,7 @@ def streams(check, prop):
         sts.append(S("fault-enum-list", enum_list(big), "seq"))
         sts.append(S("fault-enum-queue-stack", enum_qs(big), "seq"))
         sts.append(S("fault-enum-grow", enum_grow(big), "seq"))
+        sts.append(S("fault-enum-grow-long-addstrf", enum_grow_long(LONG_LENGTHS), "seq"))
         sts.append(S("fault-enum-vector", enum_vector(big), "vector"))
         k = 10 if big else 1
         seq, vec = [], []
@@ -331,6 +369,11 @@ def streams(check, prop):
             vec += rand_vector(rng, 120, 0.0)
         sts.append(S("random", seq, "seq"))
         sts.append(S("random-vector", vec, "vector"))
+        sts.append(S("long-addstrf", [o for h in long_addstrf_histories(LONG_LENGTHS) for o in h + ["end"]], "seq"))
+        if big:
+            # self-checking passes of the harness over vectors of more than 2^31 bytes (no model line)
+            sts.append(Stream("seq:huge-vector", ["huge 33554433 64", "huge 2049 1048576"], history=False, module="vector",
+                              harness="vector", lib="libqw.a", oracle=_oracle("vector"), nomodel=True))
         cs, cv = copies_then_mutate()
         sts.append(S("copies-then-mutate", cs, "seq"))
         sts.append(S("copies-then-mutate-vector", cv, "vector"))
